@@ -138,7 +138,9 @@ class FakeSnowflakeConnection:
         **kwargs: dict[str, Any],
     ) -> Iterable[FakeSnowflakeCursor]:
         cursors = [
-            self.cursor(cursor_class).execute(e.sql(dialect="snowflake"))
+            # without the comments sqlglot attaches to the statement they precede, so
+            # the statement executed (and matched against nop_regexes) is the statement itself
+            self.cursor(cursor_class).execute(e.sql(dialect="snowflake", comments=False))
             for e in sqlglot.parse(sql_text, read="snowflake")
             if e and not isinstance(e, exp.Semicolon)  # ignore comments
         ]
